@@ -1495,6 +1495,7 @@ def add_prefix_readers(pack):
     import fractions as _fr
 
     DEC_OF = z3.Function("decimal_of_text", z3.StringSort(), z3.IntSort())
+    FLT_OF = z3.Function("float_of_text", z3.StringSort(), z3.IntSort())
 
     class _Match:  # stand-in for re.Match
         def group(self, i):
@@ -1558,7 +1559,13 @@ def add_prefix_readers(pack):
             yield s2, Raise(Exc(ValueError, ("invalid literal for int() with this base",), note="digits that are not digits of the base"))
 
         eng.models[id(_bi.int)] = Model("int(<digits>[, base]) (trusted from the number patterns)", int_)
-        eng.models[id(_bi.float)] = Model("float(<digits[.digits]>) (always parses; out of range gives inf)", lambda e, s, a, k: iter([(s, SV(V.Val.flt(z3.Int(V.fresh_name("parsed_float")))))]))
+        def float_(e, s, a, k):
+            # trusted: float(text) of a text of the number patterns always parses (out of range gives inf); the value is a function of the text
+            arg = e.lift(a[0], s)
+            s.ghost["float_arg"] = arg
+            yield s, SV(V.Val.flt(FLT_OF(V.Val.s(arg))))
+
+        eng.models[id(_bi.float)] = Model("float(<digits[.digits][e..]>) (always parses; the value is a function of the text)", float_)
 
         def decimal_(e, s, a, k):
             # trusted: decimal.Decimal(text) is the exact decimal the text denotes (no rounding to a context) - DEC_OF(text)
@@ -1641,6 +1648,17 @@ def add_prefix_readers(pack):
         texts = [V.Val.s(x) for x in g.get("groups", [])[:1]] + [body]
         return z3.And(a.result == V.Val.dec(DEC_OF(V.Val.s(arg))), z3.Or(*[V.Val.s(arg) == t_ for t_ in texts]))
 
+    def flt_post(a):
+        g = a.post.st.ghost
+        if g.get("matched") is rd.scientific_notation_literal and g.get("decimal_arg") is None:
+            return a.result == V.Val.flt(FLT_OF(V.Val.s(g["token"])))
+        if g.get("matched") is rd.float_literal and g.get("decimal_arg") is None:
+            grp = g.get("groups", [])
+            return z3.BoolVal(False) if not grp else a.result == V.Val.flt(FLT_OF(V.Val.s(grp[0])))
+        return z3.BoolVal(True)
+
+    c.ensures("a float literal reads as float() of its own text: the whole token for scientific notation (significand, exponent and sign together), the pattern's "
+              "first group for the plain form", flt_post)
     c.ensures("a token with the M suffix reads as exactly the decimal its text denotes: decimal.Decimal of the digits (the pattern's first group, or the token without the M), "
               "not a value rounded to some context's precision", dec_post)
     c.replay(lambda m, ctx, ob: NUM_REPLAY)
